@@ -702,14 +702,15 @@ def run_cell(case, obs, casedir):
         rb('readback-content-inferred', f'by content (destination named {os.path.basename(path)!r})', path)
     data = final['bytes']
     for ext in WRITE_EXTS[fmt]:
-        p = os.path.join(casedir, 'copy' + ext)
+        p = os.path.join(casedir, ('copy' if ext != WRITE_EXTS[fmt][0] else 'Copy of M31') + ext)
         with open(p, 'wb') as fh:
             fh.write(data)
-        rb('readback-extension-inferred', f'a copy named copy{ext}', p)
+        rb('readback-extension-inferred', f'a copy named {os.path.basename(p)}', p)
         with gzip.open(p + '.gz', 'wb') as fh:
             fh.write(data)
-        rb('readback-gzip-copy', f'a gzip copy named copy{ext}.gz', p + '.gz')
-    for name in ('renamed.dat', 'renamed'):
+        rb('readback-gzip-copy', f'a gzip copy named {os.path.basename(p)}.gz', p + '.gz')
+    # (file names are arbitrary: capital letters, blanks, dots; also an upper-case spelling of a registered extension)
+    for name in ('renamed.dat', 'renamed', 'NGC 1365_Field-B.v2.dat'):
         p = os.path.join(casedir, name)
         with open(p, 'wb') as fh:
             fh.write(data)
